@@ -35,7 +35,7 @@ func init() {
 var srcC11b = []*g2lTarget{
 	{
 		// the per-call config is the CALLER's map (SignerSignOptions.PluginConfig): shared, with a ghost
-		file: "signer/plugin.go", recv: "PluginSigner", fn: "mergeConfig", leanName: "PluginSigner.mergeConfig",
+		file: "signer/plugin.go", recv: "PluginSigner", fn: "mergeConfig", recvName: "s", leanName: "PluginSigner.mergeConfig",
 		params:     "(s : PluginSigner) (config : GoLite.Map String String)",
 		ret:        "GoLite.Map String String × GoLite.Map String String",
 		retOpt:     []bool{false},
